@@ -23,7 +23,8 @@ def units(tier):
 
 
 def strategy(tier, unit):
-    return st.fixed_dictionaries({"el": st.integers(0, 93), "s": S.fl(0.0, 2.0), "ds": S.logfl(1e-6, 1.0)})
+    return st.fixed_dictionaries({"el": st.integers(0, 93), "s": st.one_of(S.fl(0.0, 2.0), st.sampled_from([0.0, 1.0, 2.0, 0.5])), "ds": S.logfl(1e-6, 1.0),
+                                  "s_as": st.sampled_from(["float", "numpy", "int-if-integral", "array0d"])})
 
 
 def _f(c, s):
@@ -104,7 +105,16 @@ def check(case, ctx):
     s = case["s"] + 0.0
     s2 = min(2.0, s + case["ds"])
     ctx.nontrivial(el not in ("C", "H", "O"))
-    f1 = structure.FormFactor(el, s)
+    how = case.get("s_as", "float")
+    sarg = s
+    if how == "numpy":
+        sarg = np.float64(s)
+    elif how == "array0d":
+        sarg = np.array(s)
+    elif how == "int-if-integral" and float(s).is_integer():
+        sarg = int(s)
+        ctx.event("integer-typed-s")
+    f1 = float(structure.FormFactor(el, sarg))
     ref = _f(c, s)
     ctx.near("FormFactor=formula(point)", abs(f1 - ref) / abs(ref), 1e-13, "FormFactor/formula/" + el, "%s at s=%r: %r vs %r" % (el, s, f1, ref))
     if not f1 > 0:
